@@ -12,6 +12,7 @@ import (
 	"github.com/dave/dst/decorator"
 	"github.com/dave/dst/decorator/resolver/goast"
 	"github.com/dave/dst/decorator/resolver/guess"
+	"github.com/dave/dst/decorator/resolver/simple"
 
 	"verif/core"
 	"verif/gen"
@@ -21,6 +22,7 @@ import (
 
 type c11Case struct {
 	Src      string `json:"src"`
+	Src2     string `json:"src2,omitempty"` // restored afterwards by the same Restorer
 	Resolver bool   `json:"resolver"`
 	Template string `json:"template,omitempty"`
 }
@@ -180,10 +182,28 @@ func init() {
 		Level: "model_checking",
 		Rule: "every corpus template (quick: plus every <=1 gap insertion; thorough: <=2) x {no resolver, goast resolver}: Decorator.Map after DecorateFile and Restorer.Map after RestoreFile " +
 			"(with import management when a resolver is used, so identifiers expand to selectors) are checked against ast.Inspect / reflection walks: total, typed, in-tree, mutually inverse (collapsed selectors excepted), " +
-			"commuting with every parent/child edge, no nil keys; state = (canonical text, resolver); non-trivial = file with a collapsed selector or an inserted decoration",
+			"commuting with every parent/child edge, no nil keys; plus every ordered pair of import-bearing files restored by one Restorer with import management, both files' maps examined after the second restore; state = (canonical text, resolver); non-trivial = file with a collapsed selector or an inserted decoration",
 		Assumptions: []string{"syntactic children are the Node-typed fields found by reflection on go/ast and dst types"},
-		Units:       func(tier string) []string { return gapUnits(gen.Templates(), 1) },
+		Units: func(tier string) []string {
+			u := gapUnits(gen.Templates(), 1)
+			for _, t := range importTemplates() {
+				u = append(u, "one-restorer/"+t.Name)
+			}
+			return u
+		},
 		Run: func(ctx *core.Ctx, unit int) {
+			if n := len(gen.Templates()); unit >= n {
+				// a package: this file and then every other import-bearing file restored by ONE Restorer
+				// (import management on); the maps must still describe the first file afterwards
+				a := importTemplates()[unit-n]
+				for _, b := range importTemplates() {
+					cs := c11Case{Src: a.Src, Src2: b.Src, Resolver: true}
+					ctx.State("one-restorer|"+a.Name+"|"+b.Name, true)
+					ctx.R.Transitions++
+					ctx.Eval(cs, c11Check(cs))
+				}
+				return
+			}
 			t := gen.Templates()[unit]
 			k := 1
 			if ctx.Thorough() {
@@ -219,7 +239,9 @@ func c11Check(cs c11Case) core.Outcome {
 		return core.Outcome{OK: true}
 	}
 	var dec *decorator.Decorator
-	if cs.Resolver {
+	if cs.Resolver && cs.Src2 != "" {
+		dec = decorator.NewDecoratorWithImports(fset, "example.com/local", goast.WithResolver(simple.New(stdNames)))
+	} else if cs.Resolver {
 		dec = decorator.NewDecoratorWithImports(fset, "example.com/local", goast.New())
 	} else {
 		dec = decorator.NewDecorator(fset)
@@ -235,7 +257,9 @@ func c11Check(cs c11Case) core.Outcome {
 		return fail(k, "Decorator.Map: "+d)
 	}
 	var res *decorator.Restorer
-	if cs.Resolver {
+	if cs.Resolver && cs.Src2 != "" {
+		res = decorator.NewRestorerWithImports("example.com/local", simple.New(stdNames))
+	} else if cs.Resolver {
 		res = decorator.NewRestorerWithImports("example.com/local", guess.New())
 	} else {
 		res = decorator.NewRestorer()
@@ -249,6 +273,29 @@ func c11Check(cs c11Case) core.Outcome {
 	}
 	if k, d := checkMaps("restorer", rf, df, res.Dst.Nodes, res.Ast.Nodes); k != "" {
 		return fail(k, "Restorer.Map: "+d)
+	}
+	if cs.Src2 != "" {
+		af2, err := parser.ParseFile(fset, "b.go", cs.Src2, parser.ParseComments)
+		if err != nil {
+			return core.Outcome{OK: true}
+		}
+		df2, err := dec.DecorateFile(af2)
+		if err != nil {
+			return core.Outcome{OK: true}
+		}
+		var rf2 *ast.File
+		if p := guard(func() { rf2, err = res.RestoreFile(df2) }); p != "" {
+			return fail("restore-panic", "second file: "+p)
+		}
+		if err != nil {
+			return fail("restore-error", "second file: "+err.Error())
+		}
+		if k, d := checkMaps("restorer-after-second-file", rf, df, res.Dst.Nodes, res.Ast.Nodes); k != "" {
+			return fail(k, "Restorer.Map of the first file after the same Restorer restored a second file: "+d)
+		}
+		if k, d := checkMaps("restorer-second-file", rf2, df2, res.Dst.Nodes, res.Ast.Nodes); k != "" {
+			return fail(k, "Restorer.Map of the second file: "+d)
+		}
 	}
 	return core.Outcome{OK: true}
 }
